@@ -123,6 +123,36 @@ fn cancelling_point_shift(h: &crate::e2::Honest) -> Vec<crate::e2::Dev> {
     devs
 }
 
+/// What happened to the scalar witness before the component was called.
+#[derive(Clone, Copy)]
+enum Hist {
+    Range(usize),
+    OtherGenerator,
+    SameGenerator,
+}
+
+impl Hist {
+    fn name(&self) -> String {
+        match self {
+            Hist::Range(w) => format!("range{}", w),
+            Hist::OtherGenerator => "mul_generator(other)".into(),
+            Hist::SameGenerator => "mul_generator(same)".into(),
+        }
+    }
+    fn apply(&self, c: &mut dusk_plonk::prelude::Composer, s: dusk_plonk::prelude::Witness) -> Result<(), dusk_plonk::prelude::Error> {
+        match self {
+            Hist::Range(w) => crate::dispatch::range_bits(c, s, *w),
+            Hist::OtherGenerator => {
+                c.component_mul_generator(s, GENERATOR_NUMS_EXTENDED * dusk_jubjub::JubJubScalar::from(3u64))?;
+            }
+            Hist::SameGenerator => {
+                c.component_mul_generator(s, GENERATOR_EXTENDED)?;
+            }
+        }
+        Ok(())
+    }
+}
+
 fn seam_case(gn: &str, g: JubJubExtended, sn: &str, s: Fe, dn: &str, d: Digits, tier: Tier, explore: bool) -> GCase {
     let gadget = Gadget::new(&format!("fixed_base/{}/s={}/digits={}", gn, sn, dn), vec![s], move |c, ins| {
         let p = c.verif_fixed_base_signed_digits(ins[0], g, &d)?;
@@ -234,6 +264,43 @@ pub fn cases(tier: Tier) -> Vec<GCase> {
                 // explore allocations only for the principal vectors of the first generator
                 let explore = explore && (tier == Tier::Thorough || gn == "G");
                 out.push(seam_case(&gn, g, &sn, s, &dn, d, tier, explore));
+            }
+
+            // non-initial composer states: the scalar witness already has a history
+            // (range-checked to some width, or multiplied by another generator)
+            if gn == "G" || tier == Tier::Thorough {
+                let principal: Vec<(String, Digits)> = vec![("naf(s)".into(), honest), ("binary(s)".into(), binary(&si.low(255)))];
+                for hist in [Hist::Range(251), Hist::Range(252), Hist::Range(253), Hist::Range(254), Hist::Range(64), Hist::OtherGenerator, Hist::SameGenerator] {
+                    let pre_ok = match hist {
+                        Hist::Range(w) => m5::in_range(&s, w),
+                        _ => canonical,
+                    };
+                    let hname = hist.name();
+                    let gadget = Gadget::new(&format!("mul_generator/{}/s={}", gn, sn), vec![s], move |c, ins| {
+                        let p = c.component_mul_generator(ins[0], g)?;
+                        Ok(vec![*p.x(), *p.y()])
+                    })
+                    .with_prelude(&hname, move |c, ins| hist.apply(c, ins[0]));
+                    let e = if canonical && pre_ok {
+                        let p = mul_native(&g, &si);
+                        Expect::Sat(vec![p.x, p.y])
+                    } else {
+                        Expect::Unsat
+                    };
+                    let mut c = GCase::new(gadget, e, "mul_generator/with-history");
+                    c.dev_stride = tier.pick(0, 13);
+                    out.push(c);
+                    for (dn, d) in &principal {
+                        let mut c = seam_case(&gn, g, &sn, s, dn, *d, tier, false);
+                        c.g = c.g.with_prelude(&hname, move |c, ins| hist.apply(c, ins[0]));
+                        if !pre_ok {
+                            c.expect = Expect::Unsat;
+                        }
+                        c.class = format!("{}/with-history", c.class);
+                        c.confirm = true;
+                        out.push(c);
+                    }
+                }
             }
         }
     }
